@@ -4,7 +4,7 @@
 usage: tools/seed.py <name> <property> <worktree> <patch.diff> <demo.py> "<needs>" "<tests subset>" [check pids...]
 
  1. in the scratch worktree: demo passes on the clean tree, fails with the patch, the given test subset passes with the patch
- 2. applies the patch to /repo, runs ./vc check for each pid (default: the property), reverts /repo straight afterwards
+ 2. applies the patch to a scratch copy of /repo/src (never to /repo), runs ./vc check --repo-src on it for each pid (default: the property)
  3. writes /verif/seeded/<name>/{patch.diff, demo.py, meta.json}
 """
 import json
@@ -45,15 +45,19 @@ def main():
     confirmed = rc0 == 0 and rc1 != 0 and rct == 0
     print("\n".join(ran), "\nconfirmed:", confirmed)
     results = {}
-    rc, out = sh(f"git -C /repo apply {patch}")
+    import tempfile
+
+    scratch = tempfile.mkdtemp(prefix="seedsrc_")
+    shutil.copytree("/repo/src", scratch + "/src", ignore=shutil.ignore_patterns("__pycache__", "*.pyc"))
+    rc, out = sh(f"patch -p1 -s -i {os.path.abspath(patch)}", cwd=scratch)
     if rc:
-        print("patch does not apply to /repo:", out)
+        print("patch does not apply to a copy of /repo/src:", out)
+        shutil.rmtree(scratch, ignore_errors=True)
         return 2
     try:
         for p in pids:
-            tmp = f"/tmp/seed_out_{name}_{p}"
-            shutil.rmtree(tmp, ignore_errors=True)
-            rcc, outc = sh(f"./vc check {p} --tier quick", cwd=VERIF, env={"PYVC_OUT_DIR": tmp, "PYVC_NF_BUDGET": "400"})
+            tmp = f"{scratch}/out_{p}"
+            rcc, outc = sh(f"./vc check {p} --tier quick --repo-src {scratch}/src", cwd=VERIF, env={"PYVC_OUT_DIR": tmp, "PYVC_NF_BUDGET": "400"})
             viol = [l for l in outc.splitlines() if l.startswith("VIOLATION")]
             obl = [l.strip() for l in outc.splitlines() if l.strip().startswith("obligation ")]
             results[p] = dict(exit=rcc, violations=len(viol), replayed=sum(1 for l in viol if "no-failing-input-found" not in l),
@@ -61,10 +65,8 @@ def main():
             print(p, results[p]["exit"], results[p]["summary"])
             for l in obl[:3]:
                 print("   ", l[:200])
-            shutil.rmtree(tmp, ignore_errors=True)
     finally:
-        sh("git -C /repo checkout -- .")
-    st, _ = sh("git -C /repo status --short")
+        shutil.rmtree(scratch, ignore_errors=True)
     d = os.path.join(VERIF, "seeded", name)
     os.makedirs(d, exist_ok=True)
     shutil.copy(patch, os.path.join(d, "patch.diff"))
